@@ -162,7 +162,17 @@ def make_cdef(rng, nmax):
         src.append("struct %s { char x[%d]; };" % (s, i + 1))
     for i, e in enumerate(etags):
         src.append("enum %s { %s = %d };" % (e, "ENUMV_%d_" % i + e, i + 5))
-    return {"consts": consts, "types": types, "stags": stags, "etags": etags, "cdef": "\n".join(src) + "\n"}
+    extra = []
+    # names the code generator adds by itself: the implicit 'FILE' typedef / 'struct _IO_FILE',
+    # '$'-names of anonymous aggregates and enums
+    if rng.random() < 0.6:
+        extra.append("int c25_uses_file(FILE *);")
+    if rng.random() < 0.4:
+        extra.append("typedef struct { char y[3]; } %s;" % ("T" + rng.choice(ALPHA) + "anon"))
+    if rng.random() < 0.3:
+        extra.append("typedef enum { C25_ANON_A, C25_ANON_B } c25_anon_enum_t;")
+    return {"consts": consts, "types": types, "stags": stags, "etags": etags, "extra": extra,
+            "cdef": "\n".join(src + extra) + "\n"}
 
 
 def module_tables(pysrc):
@@ -176,6 +186,29 @@ def module_tables(pysrc):
     tabs["struct_unions"] = [s[0][8:] for s in kw.get("_struct_unions", ())]
     tabs["enums"] = [e[8:].split(b"\0")[0] for e in kw.get("_enums", ())]
     return tabs
+
+
+def c_module_tables(csrc):
+    """The name tables of an emitted API-mode C source, in table order."""
+    tabs = {}
+    for key, decl in (("globals", "_cffi_globals"), ("typenames", "_cffi_typenames"),
+                      ("struct_unions", "_cffi_struct_unions"), ("enums", "_cffi_enums")):
+        m = re.search(r"%s\[\] = \{(.*?)\n\};" % decl, csrc, re.S)
+        tabs[key] = [x.encode() for x in re.findall(r'^\s*\{ "([^"]*)"', m.group(1), re.M)] if m else []
+    return tabs
+
+
+def check_sorted(ctx, d, tabs, mode):
+    """StrictSorted (byte order) is the hypothesis under which search_complete was proved: a generated
+    table that violates it is a broken tie between model and code (not by itself a violation)."""
+    for key, tab in tabs.items():
+        ctx.count("sorted-check:%s:%s" % (mode, key))
+        for a, b in zip(tab, tab[1:]):
+            if not a < b:
+                ctx.disagree({"part": "B", "mode": mode, "table": key, "names": [t.decode() for t in tab],
+                              "cdef": d["cdef"]}, "emitted table order", "StrictSorted required",
+                             "generated table %s is not strictly sorted: %r before %r" % (key, a, b))
+                break
 
 
 def lookup_all(ctx, d, ffi, lib, mode):
@@ -232,12 +265,15 @@ def part_b(ctx, nmods, oracle_only=False, api=False):
         ffi.cdef(d["cdef"])
         modname = "_c25_mod_%d_%d" % (ctx.seed, len(os.listdir(ctx.scratch)))
         if api and k == 0:
-            ffi.set_source(modname, d["cdef"].replace(";\n", ";\n"))
+            csource = "#include <stdio.h>\n" + d["cdef"].replace("int c25_uses_file(FILE *);",
+                                                                 "int c25_uses_file(FILE *f) { return 0; }")
+            ffi.set_source(modname, csource)
             cpath = os.path.join(ctx.scratch, modname + ".c")
             _quiet(lambda: ffi.emit_c_code(cpath))
             common.compile_ext(cpath, ctx.scratch, modname)
             m = importlib.import_module(modname)
             lookup_all(ctx, d, m.ffi, m.lib, "api")
+            check_sorted(ctx, d, c_module_tables(open(cpath).read()), "api")
             continue
         ffi.set_source(modname, None)
         path = os.path.join(ctx.scratch, modname + ".py")
@@ -248,6 +284,7 @@ def part_b(ctx, nmods, oracle_only=False, api=False):
         if oracle_only:
             continue
         tabs = module_tables(open(path).read())
+        check_sorted(ctx, d, tabs, "abi")
         tabof = {"const": "globals", "const-lib": "globals", "const-arraylen": "globals",
                  "typedef": "typenames", "struct": "struct_unions", "enum": "enums"}
         for kind, name, found in res:
@@ -287,7 +324,7 @@ def _quiet(fn):
 def correspond(ctx):
     sys.path.insert(0, ctx.scratch)
     part_a(ctx, ctx.n(150, 5000))
-    part_b(ctx, ctx.n(6, 150), api=True)
+    part_b(ctx, ctx.n(14, 200), api=True)
 
 
 def search(ctx):
